@@ -250,7 +250,7 @@ def main(ck):
             sample=dict(xml=gm.xml, seed=seed, nv=nv, cond=float(cond), labels=[l for l in labels if l.startswith('m:')]),
             labels=labels)
 
-  ck.run_hypothesis(test, st.tuples(model_strategy(ck.quick), mg.state_seed()), ck.budget(300, 6000), name='main')
+  ck.run_hypothesis(test, st.tuples(model_strategy(ck.quick), mg.state_seed()), ck.budget(600, 6000), name="main")
   import json, os
   with open(os.path.join(os.path.dirname(os.path.dirname(os.path.abspath(__file__))), 'work', 'C06_worst.json'), 'w') as f:
     json.dump(worst_case, f, indent=1)
